@@ -188,6 +188,12 @@ def analyze_method(job, sdl, schema, pkg: Package, rt: PkgRuntime, mi, modes, kn
     A_up = up.acc_class(ci, r)
     A_dn = dn.acc_class(ci, r)
     model_ann = ast.Name(id=mi.model)
+    # a class / base class the extractor cannot find is a modelling gap, never a silent "accepts anything"
+    for u in sorted(set(up.unknown_used) | set(dn.unknown_used)):
+        if u.startswith(("type:", "base:")):
+            out["harness_errors"].append(f"{mi.name}: annotation refers to {u} which the extractor cannot resolve; the acceptance model would be vacuous here")
+        elif f"{mi.name}: {u}" not in out["inconclusive"]:
+            out.setdefault("approximated", []).append(f"{mi.name}: {u}")
 
     def oracle(m):
         stats["oracle_runs"] += 1
@@ -243,6 +249,9 @@ def analyze_method(job, sdl, schema, pkg: Package, rt: PkgRuntime, mi, modes, kn
                 cn = c["node"]
                 if len([e for e in (cn.entries or []) if e[1].selection_set is not None]) > 1 and cn.parent is not None:
                     sig["parent_key_selected_repeatedly"] = True
+                if ent is None:
+                    # the object lacking the key was itself selected inside a named fragment (the fragment's text is what is sent)
+                    sig["object_inside_named_fragment"] = any(step[0] == "spread" for via in (cn.via or []) for step in via)
                 block = ent[0] if ent is not None else z3.Not(z3.And(c["node"].live, c["node"].rt == c["variant"]))
             else:
                 n = c["node"]
